@@ -2,15 +2,15 @@ SPECIFICATION Spec
 CONSTANTS
   Addrs = {"a1"}
   Handlers = {"h1"}
-  ClientIds = {"c1", "c2"}
-  InitCfgs = {"cids"}
+  ClientIds = {"c1"}
+  InitCfgs = {"tsuf"}
   FullAlphabet = FALSE
   Walk = FALSE
-  MaxSteps = 2
-  Tight = FALSE
-  Warm = FALSE
+  MaxSteps = 5
+  Tight = TRUE
+  Warm = TRUE
   Per = 8
   Rebuild = "limit-burst"
-  SufCheck = "exists-first"
-INVARIANTS ImplMatchesChoose
+  SufCheck = "hash-first"
+INVARIANTS SuffrageOnlyInConsensus
 CHECK_DEADLOCK FALSE
